@@ -57,7 +57,7 @@ def run_corpus(tag="spans"):
         if tk.get("slices", "ok") != "ok":
             mism.append("%s: a token's text is not the source slice of its span (%s)" % (name, tk.get("slices")[:120]))
         if mm.get("leaves_ok") == "false":
-            mism.append("%s: a leaf span is out of order, outside the text or off a character boundary" % name)
+            mism.append("%s: a leaf span is out of order, outside the text or off a character boundary, or the leaves are not exactly the non-trivia tokens of the parsed prefix" % name)
         if mm.get("spans_ok") == "false":
             mism.append("%s: a node span leaves the text or is not the hull of its leaves" % name)
         try:
@@ -160,6 +160,43 @@ def check():
     if n_ok == 0 or n_err == 0:
         o.inconc("tokenize: no token / no error iteration found (%d/%d)" % (n_ok, n_err))
     o.extra["tokenize_paths"] = {"token": n_ok, "error": n_err}
+
+    # combinators: nodes are committed together with the cursor. A list combinator (item (sep item)* / alternatives
+    # repeated) that gives up on an attempt leaves no node of that attempt behind - otherwise the enclosing production
+    # parses the same token again and the token becomes a leaf twice.
+    for cname in ("intersperse", "repeat"):
+        try:
+            fc = MM.one(r"^(grammar::)?%s$" % cname)
+        except KeyError as ex:
+            o.inconc("MIR: %s" % str(ex)[-200:])
+            continue
+        o.functions.append(mirlib.func_ref(fc, "oal-model"))
+        exc = mirlib.executor([MM])
+        n_exit = n_adv = 0
+        ok_exit = ok_adv = True
+        for p in exc.run(fc):
+            ev = p.events
+            loops = [i for i, e in enumerate(ev) if e[0] == "loop"]
+            if not loops:
+                continue
+            tail = [e for e in ev[loops[-1] + 1:] if e[0] == "call"]
+            pushes = [e for e in tail if e[1] == "Vec::push"]
+            if p.kind == "return" and p.ret[0] == "variant" and p.ret[2] in ("Ok",) or (p.kind == "return" and p.ret[0] == "sym"):
+                n_exit += 1
+                if pushes:
+                    ok_exit = False
+            elif p.kind == "backedge" and pushes:
+                n_adv += 1
+                # the cursor carried into the next iteration comes out of the very match whose node was pushed last
+                last = pushes[-1][2][1]
+                src = [t for t in ms.subterms(last) if t[0] == "app" and not t[1].startswith("Vec::push")]
+                curs = [v for k, v in p.state.vals.items() if k in p.state.havocked and fc.locals.get(k[1] if isinstance(k, tuple) else k, "").strip().endswith("Cursor")]
+                moved = [v for v in curs if not (v[0] == "sym" and "#loop" in v[1])]
+                if not moved or not all(any(t in src for t in ms.subterms(v)) for v in moved):
+                    ok_adv = False
+        mirlib.check_translator(o, exc, cname)
+        structural("%s: an attempt that fails leaves no node behind (nothing is pushed in the iteration that ends the list)" % cname, ok_exit and n_exit > 0)
+        structural("%s: when nodes are pushed the cursor moves to the end of the match they came from" % cname, ok_adv and n_adv > 0)
 
     # TokenList plumbing
     ex = mirlib.executor([MM])
